@@ -172,7 +172,7 @@ pub fn run(args: &Args) -> i32 {
     let few_rot: Vec<usize> = vec![1, 5, 16, 31];
 
     // F1: every non-empty subset of a wire window straddling a column boundary
-    let win = if thorough { 11 } else { 7 };
+    let win = if thorough { 12 } else { 7 };
     rep.run("window-subsets", (1u64 << win) - 1, 600, true, &format!("every non-empty subset of a {win}-wire window (wires 3..) gets one avalanche each (distinct time bins, z, amplitudes; induced neighbours; pad charge over 3+ rows): all 31 rotations + mirror"), |idx, loc| {
         let mask = idx + 1;
         let hits: Vec<Hit> = (0..win).filter(|i| mask >> i & 1 == 1).map(|i| Hit { wire: 3 + i, bin: 20 + 3 * i, z: -0.31 + 0.0137 * i as f64, amp: 100.0 + 7.0 * i as f64 }).collect();
@@ -225,7 +225,7 @@ pub fn run(args: &Args) -> i32 {
     });
 
     // F3: forward-model lattice events
-    let n_ev = if thorough { 40 } else { 6 };
+    let n_ev = if thorough { 120 } else { 6 };
     rep.run("lattice-events", n_ev, 600, true, "forward-model lattice events (2-4 tracks): rotations + mirror", |idx, loc| {
         let li = (idx * 109 + 7) % 4320;
         let spec = lattice_event(li, 0);
